@@ -36,9 +36,20 @@ type ordEval struct {
 	// boolErr: the function returns (bool, error); the value is the first result of a
 	// return whose second result is nil
 	boolErr bool
+	// alias: locals with one definition stand for their defining expression
+	alias map[types.Object]ast.Expr
 }
 
 func (e *ordEval) fieldOf(x ast.Expr) (string, int, bool) {
+	for i := 0; i < 4; i++ {
+		if o := objOf(e.fn, x); o != nil && e.alias != nil {
+			if a, ok := e.alias[o]; ok {
+				x = a
+				continue
+			}
+		}
+		break
+	}
 	if e.index {
 		ix, ok := ast.Unparen(x).(*ast.IndexExpr)
 		if !ok {
@@ -184,6 +195,51 @@ func (e *ordEval) stmts(list []ast.Stmt, c ordCase) (bool, bool) {
 		case *ast.BlockStmt:
 			if val, ret := e.stmts(v.List, c); ret {
 				return val, true
+			}
+		case *ast.AssignStmt:
+			if v.Tok != token.DEFINE || len(v.Lhs) != len(v.Rhs) {
+				e.bad = fmt.Sprintf("assignment outside the comparison fragment at %s", e.fn.Pkg.Fset.Position(s.Pos()))
+				return false, true
+			}
+			if e.alias == nil {
+				e.alias = map[types.Object]ast.Expr{}
+			}
+			for i, l := range v.Lhs {
+				if o := objOf(e.fn, l); o != nil {
+					e.alias[o] = v.Rhs[i]
+				}
+			}
+		case *ast.SwitchStmt:
+			if v.Tag != nil || v.Init != nil {
+				e.bad = fmt.Sprintf("switch outside the comparison fragment at %s", e.fn.Pkg.Fset.Position(s.Pos()))
+				return false, true
+			}
+			var def *ast.CaseClause
+			taken := false
+			for _, cc := range v.Body.List {
+				clause := cc.(*ast.CaseClause)
+				if clause.List == nil {
+					def = clause
+					continue
+				}
+				hit := false
+				for _, ce := range clause.List {
+					if e.expr(ce, c) {
+						hit = true
+					}
+				}
+				if hit {
+					taken = true
+					if val, ret := e.stmts(clause.Body, c); ret {
+						return val, true
+					}
+					break
+				}
+			}
+			if !taken && def != nil {
+				if val, ret := e.stmts(def.Body, c); ret {
+					return val, true
+				}
 			}
 		default:
 			e.bad = fmt.Sprintf("statement outside the comparison fragment at %s", e.fn.Pkg.Fset.Position(s.Pos()))
